@@ -89,3 +89,79 @@ vp_snprintf(char *dst, size_t n, const char *fmt, ...)
 	}
 	return ((int) l);
 }
+
+/* Static tables of url.c.  goto-instrument --dfcc gives every non-const
+ * static an arbitrary initial value; nni_schemes[] and
+ * nni_url_default_ports[] are never assigned anywhere in url.c, so their
+ * initialisers are what the running library sees.  ASSUMED (and checked by
+ * unit tables_match, which runs WITHOUT DFCC and therefore sees the real
+ * initialisers): the copies below equal the tables in url.c.  Harnesses that
+ * reach the tables call vp_tables_init() first. */
+#define VP_SCHEMES(X) \
+	X(0, "http") \
+	X(1, "https") \
+	X(2, "tcp") \
+	X(3, "tcp4") \
+	X(4, "tcp6") \
+	X(5, "tls+tcp") \
+	X(6, "tls+tcp4") \
+	X(7, "tls+tcp6") \
+	X(8, "socket") \
+	X(9, "inproc") \
+	X(10, "ipc") \
+	X(11, "unix") \
+	X(12, "abstract") \
+	X(13, "ws") \
+	X(14, "ws4") \
+	X(15, "ws6") \
+	X(16, "wss") \
+	X(17, "wss4") \
+	X(18, "wss6") \
+	X(19, "udp") \
+	X(20, "udp4") \
+	X(21, "udp6") \
+	X(22, "dtls") \
+	X(23, "dtls4") \
+	X(24, "dtls6") \
+	X(25, "file") \
+	X(26, "mailto") \
+	X(27, "gopher") \
+	X(28, "ftp") \
+	X(29, "ssh") \
+	X(30, "git") \
+	X(31, "telnet") \
+	X(32, "irc") \
+	X(33, "imap") \
+	X(34, "imaps")
+#define VP_PORTS(X) \
+	X(0, "git", 9418) \
+	X(1, "gopher", 70) \
+	X(2, "http", 80) \
+	X(3, "https", 443) \
+	X(4, "ssh", 22) \
+	X(5, "telnet", 23) \
+	X(6, "ws", 80) \
+	X(7, "ws4", 80) \
+	X(8, "ws6", 80) \
+	X(9, "wss", 443) \
+	X(10, "wss4", 443) \
+	X(11, "wss6", 443)
+#define VP_NSCHEMES 35
+#define VP_NPORTS 12
+#define VP_NELEM(a) (sizeof(a) / sizeof((a)[0]))
+/* loop-free on purpose (no unwinding bound needed in the units that use it) */
+static void
+vp_tables_init(void)
+{
+#define X(i, n) nni_schemes[i] = n;
+	VP_SCHEMES(X)
+#undef X
+	nni_schemes[VP_NSCHEMES] = NULL;
+#define X(i, n, p)                            \
+	nni_url_default_ports[i].scheme = n;  \
+	nni_url_default_ports[i].port   = p;
+	VP_PORTS(X)
+#undef X
+	nni_url_default_ports[VP_NPORTS].scheme = NULL;
+	nni_url_default_ports[VP_NPORTS].port   = 0;
+}
